@@ -48,10 +48,11 @@ def run_line(line):
     reply = " ".join(sent) if sent else "-"
     if exc is not None:
         reply += " EXC:" + exc_name(exc)
-    if trx.fh is None:
+    fhp = wh.hopping_of(trx) if "wh" in globals() else trx.fh
+    if fhp is None:
         fh = "N"
     else:
-        fh = "%s/%s/%s" % (trx.fh.hsn, trx.fh.maio, ",".join("%s:%s" % (p[0], p[1]) for p in trx.fh.ma))
+        fh = "%s/%s/%s" % (fhp.hsn, fhp.maio, ",".join("%s:%s" % (p[0], p[1]) for p in fhp.ma))
     out = "trx %s fh=%s" % (reply, fh)
     if t[2] != "-":
         fns = [int(x) for x in t[2].split(",")]
